@@ -23,6 +23,29 @@ MAX_TOTAL_BLOCKS = 4000
 WORKSPACE = ("s3s", "s3s_fs", "s3s_policy", "s3s_aws")
 
 _ANCHORS = [None]
+_RECORDED = [None]
+
+
+def recorded_anchor_paths():
+    """full paths of the crate-private functions recorded in oracles/anchors.json (the functions some rule refers to by name)"""
+    if _RECORDED[0] is None:
+        import json
+        p = os.path.join(os.path.dirname(os.path.dirname(os.path.abspath(__file__))), "oracles", "anchors.json")
+        try:
+            with open(p) as fh:
+                _RECORDED[0] = {a["name"] for a in json.load(fh)["anchors"]}
+        except OSError:
+            _RECORDED[0] = None
+    return _RECORDED[0]
+
+
+def is_role(db, callee):
+    """a function some rule knows by name: part of the crate's external interface, or recorded in oracles/anchors.json.  A new private helper
+    is never a role, whatever it is called."""
+    rec = recorded_anchor_paths()
+    if rec is None:
+        return short(callee.name) in anchor_names()
+    return callee.name in rec or callee.name in db.reachable_fns
 
 
 def anchor_names():
@@ -46,7 +69,7 @@ def default_policy(db, caller, term, callee):
         return False
     if len(callee.blocks) > MAX_BLOCKS:
         return False
-    if short(callee.name) in anchor_names():
+    if is_role(db, callee):
         return False
     # `async fn`: the outer body only builds the coroutine
     for bl in callee.blocks:
@@ -76,7 +99,7 @@ def _async_target(db, body, t, policy):
     h = db.bodies.get(hcal.get("resolved") or "") or db.bodies.get(hcal.get("def") or "")
     if h is None or hcal.get("virtual") or h.crate not in WORKSPACE or h.kind not in ("Fn", "AssocFn") or h.raw.get("impl_trait"):
         return None
-    if short(h.name) in anchor_names() or len(h.blocks) > 6 or h.raw["argc"] != len(ht["args"]):
+    if is_role(db, h) or len(h.blocks) > 6 or h.raw["argc"] != len(ht["args"]):
         return None
     agg = None
     for bl in h.blocks:
@@ -424,3 +447,59 @@ def inlined(db, body, policy=default_policy):
     nb.original = body
     _CACHE[key] = nb
     return nb
+
+
+def absorbers(db, b):
+    """bodies into which `b` is inlined: callers of a helper function, awaiters of an `async fn` helper (b = its coroutine body)"""
+    if default_policy(db, None, None, b):
+        return [cb for cb, _, _ in db.callers_of(b.name) if cb.crate in WORKSPACE]
+    if b.kind == "Closure" and b.raw.get("coroutine"):
+        h = db.bodies.get(b.parent)
+        if h is not None and h.kind in ("Fn", "AssocFn") and not h.raw.get("impl_trait") and not is_role(db, h):
+            return [cb for cb, _, _ in db.callers_of(h.name) if cb.crate in WORKSPACE]
+    return []
+
+
+def top_owners(db, b, depth=0):
+    """names of the functions a body belongs to once helpers are inlined: its root function, or - when that is a helper - the owners of
+    every body that calls / awaits the helper"""
+    root = db.root_of(b)
+    if depth > 4:
+        return {root.name}
+    rep = root
+    if root.kind in ("Fn", "AssocFn") and not default_policy(db, None, None, root):
+        # an `async fn`: its coroutine body is what gets inlined
+        cor = [c for c in root.children if c.raw.get("coroutine")]
+        rep = cor[0] if len(cor) == 1 and len(root.blocks) <= 6 else root
+    ab = absorbers(db, rep)
+    if not ab:
+        return {root.name}
+    out = set()
+    for cb in ab:
+        out |= top_owners(db, cb, depth + 1)
+    return out
+
+
+def roots_with(db, direct, pred, depth=3):
+    """the bodies that - with their helpers inlined - satisfy `pred`, starting from the bodies `direct` that satisfy it as written and climbing
+    to whoever absorbs them; a body that is only a helper of another result is dropped.  Returns inlined Body objects."""
+    cands = {b.name: b for b in direct}
+    frontier = list(direct)
+    for _ in range(depth):
+        nxt = []
+        for b in frontier:
+            for cb in absorbers(db, b):
+                if cb.name not in cands:
+                    cands[cb.name] = cb
+                    nxt.append(cb)
+        frontier = nxt
+    inl = {n: inlined(db, b) for n, b in cands.items()}
+    helpers = set()
+    for ib in inl.values():
+        for h in getattr(ib, "inlined_from", []):
+            helpers.add(h)
+            hb = db.bodies.get(h)
+            # the coroutine body of an async helper is named after the function that builds it
+            if hb is not None and hb.kind == "Closure":
+                helpers.add(hb.parent)
+    return [ib for n, ib in sorted(inl.items()) if n not in helpers and pred(ib)]
